@@ -7,8 +7,7 @@
    (total)      import_value answers with a value, RangeError or WrongTypeError only     -- C01_import_total (unconditional)
                 validate likewise                                                         -- C01_validate_total, under
                 validate_guard: a struct's previous value is None/empty/a dict (always so for a parameter of that
-                type), and the representability guard scaled_call_guard (see Lemmas.v; always true for binary64,
-                not proved)
+                type); the int*float product of ScaledInteger can not overflow (Base/F64Repr.v)
    (canonical)  which JSON kinds denote a value of which type, lengths and leaf values preserved
                                                                                           -- C01_import_kinds, C01_array_length
    (idempotent) validate(validate(v)) = validate(v)                                      -- oracle + correspondence only (partial) *)
